@@ -458,6 +458,10 @@ func Render(s *Spec) *Rendered {
 		files[i] = w
 		if s.FileIgnore != "" {
 			w.add(s.FileIgnore)
+			if s.BlankLines {
+				w.add("") // the blank-line layout also detaches the header comment from the package clause
+				w.add("// an ordinary comment")
+			}
 		}
 		w.add("package " + pkgName)
 		w.add("")
@@ -571,6 +575,22 @@ func NewT() *P { return &P{} }
 	return out
 }
 
+// recvName is how the receiver base type of a method on T is written: in the declaring package the
+// spelling under test applies to receivers too (an alias of T, a parenthesised T); in the using
+// package the methods belong to its own T.
+func (r *renderer) recvName() string {
+	if r.spec.InU {
+		return "T"
+	}
+	switch r.spec.Spell {
+	case SpLocalAlias:
+		return "AT"
+	case SpParen:
+		return "(T)"
+	}
+	return "T"
+}
+
 func (r *renderer) subst(stmt string) string {
 	r.ctr++
 	rep := strings.NewReplacer("{TL}", r.tLit, "{T}", r.tName, "{PT}", r.ptName, "{P}", r.pName, "{O}", r.oName, "{N}", r.nName,
@@ -634,9 +654,9 @@ func (r *renderer) block(w *lineWriter, pkgPath string, bi int, b Block) {
 		w.add("\tx, p, r, o, op, arr, tw, tp, y, rn, x2, u2, gx, gp, wt, wpt, wtw := " + r.subst("{Env}") + "()")
 		w.add("\tuse(x, p, r, o, op, arr, tw, tp, y, rn, x2, u2, gx, gp, wt, wpt, wtw)")
 	case EMethTPtr:
-		w.addf("func (r *T) m%d(%s) {", bi, r.params("r"))
+		w.addf("func (r *%s) m%d(%s) {", r.recvName(), bi, r.params("r"))
 	case EMethTVal:
-		w.addf("func (r T) m%d(%s) {", bi, r.params("r"))
+		w.addf("func (r %s) m%d(%s) {", r.recvName(), bi, r.params("r"))
 		ptrR = false
 	case EMethNPtr:
 		w.addf("func (rn *N) m%d(%s) {", bi, r.params("rn"))
